@@ -18,6 +18,29 @@ def parent_map(root):
     return pm
 
 
+def locals_bound_to(f, text=None, pred=None):
+    """Names of the locals of f whose every binding has the canonical value
+    `text` (or a canonical value accepted by pred): the way a rule names a
+    role ("the branch being created") instead of a variable."""
+    out = []
+    seen = set()
+    for n in walk_local(f.node, include_root=False):
+        if isinstance(n, ast.Assign) and len(n.targets) == 1 and \
+                isinstance(n.targets[0], ast.Name) and \
+                n.targets[0].id not in seen:
+            name = n.targets[0].id
+            seen.add(name)
+            vals = [v for _, v in stores_to(f, name)]
+            # (`x = None` next to the real binding is "not there yet")
+            real = [v for v in vals
+                    if not (isinstance(v, ast.Constant) and v.value is None)]
+            if real and all(v is not None and (
+                    canon(f, v) == text if pred is None
+                    else pred(canon(f, v))) for v in real):
+                out.append(name)
+    return out
+
+
 def first_rest(f):
     """[(first name, rest name or None, LIST expr)] for every
     `first, *rest = LIST` of f, as the rules see it after normalisation:
@@ -742,7 +765,21 @@ class _Positional(ast.NodeTransformer):
                                           keywords=rest), node)
 
 
-def canon(f, e, depth=4, paths_only=False):
+_ALPHA = [True]
+
+
+class no_alpha:
+    """Within this context canon() keeps the names of the locals it cannot
+    write out (for the rules that match them as pattern variables)."""
+    def __enter__(self):
+        self.old = _ALPHA[0]
+        _ALPHA[0] = False
+
+    def __exit__(self, *a):
+        _ALPHA[0] = self.old
+
+
+def canon(f, e, depth=4, paths_only=False, alpha=None):
     """Source text of e with single-binding locals replaced by what they
     stand for, and keyword arguments of internal calls in positional form:
     the same text whether or not a sub-expression was first stored in a
@@ -753,6 +790,12 @@ def canon(f, e, depth=4, paths_only=False):
                 isinstance(x, ast.Call) and x.keywords for x in ast.walk(e)):
             import copy
             e = _Positional(f).visit(copy.deepcopy(e))
+    if alpha is None:
+        alpha = _ALPHA[0]
+    if f is not None and alpha:
+        e = _alpha(f, e)
+    elif alpha:
+        e = _alpha_comprehensions(e)
     text = ' '.join(src(e).split())
     # two expressions a rule has shown to denote the same object in f
     # (FuncInfo.aliases: [(text, canonical text)], set by that rule)
@@ -761,8 +804,431 @@ def canon(f, e, depth=4, paths_only=False):
     return text
 
 
+# ------------------------------------------- conditions as patterns over locals
+def _ast_match(p, t, variables, env):
+    """First-order matching of expression p (names in `variables` stand for
+    any expression, the same one everywhere) against t.  Extends env
+    ({variable: ast.dump of what it stands for}); returns True / False."""
+    if isinstance(p, ast.Name) and p.id in variables:
+        d = ast.dump(t)
+        if p.id in env:
+            return env[p.id][0] == d
+        env[p.id] = (d, t)
+        return True
+    if type(p) is not type(t):
+        return False
+    for name, pv in ast.iter_fields(p):
+        if name == 'ctx':
+            continue
+        tv = getattr(t, name, None)
+        if isinstance(pv, list):
+            if not isinstance(tv, list) or len(pv) != len(tv):
+                return False
+            for a, b in zip(pv, tv):
+                if isinstance(a, ast.AST):
+                    if not _ast_match(a, b, variables, env):
+                        return False
+                elif a != b:
+                    return False
+        elif isinstance(pv, ast.AST):
+            if not isinstance(tv, ast.AST) or \
+                    not _ast_match(pv, tv, variables, env):
+                return False
+        elif pv != tv:
+            return False
+    return True
+
+
+def tree_match(p, t, variables, env):
+    """Matching of two cond_tree() results, the first one a pattern; and /
+    or are matched in any order, `a == b` either way round.  Generator of
+    the extended environments."""
+    import itertools
+    if p[0] == 'atom' and p[1] in variables and t[0] != 'atom':
+        # a variable that stands for a whole condition (a flag written out)
+        d = repr(t)
+        if p[1] not in env:
+            e2 = dict(env)
+            e2[p[1]] = (d, _parse_expr('condition()'))
+            yield e2
+        elif env[p[1]][0] == d:
+            yield env
+        return
+    if p[0] != t[0]:
+        return
+    if p[0] == 'const':
+        if p[1] == t[1]:
+            yield env
+        return
+    if p[0] == 'atom':
+        try:
+            pa, ta = _parse_expr(p[1]), _parse_expr(t[1])
+        except SyntaxError:
+            if p[1] == t[1]:
+                yield env
+            return
+        tries = [(pa, ta)]
+        if isinstance(pa, ast.Compare) and len(pa.ops) == 1 and \
+                isinstance(pa.ops[0], (ast.Eq, ast.NotEq)) and \
+                isinstance(ta, ast.Compare) and len(ta.ops) == 1:
+            sw = ast.Compare(left=ta.comparators[0], ops=ta.ops,
+                             comparators=[ta.left])
+            tries.append((pa, sw))
+        for a, b in tries:
+            e2 = dict(env)
+            if _ast_match(a, b, variables, e2):
+                yield e2
+        return
+    if p[0] == 'not':
+        yield from tree_match(p[1], t[1], variables, env)
+        return
+    if len(p[1]) != len(t[1]):
+        return
+    for perm in itertools.permutations(t[1]):
+        envs = [env]
+        for a, b in zip(p[1], perm):
+            envs = [e2 for e in envs
+                    for e2 in tree_match(a, b, variables, e)]
+            if not envs:
+                break
+        yield from envs
+
+
+def match_guard_table(f, table, found, variables):
+    """table: [(label, ((arm, pattern text), ...))] written with the locals
+    of the pinned tree as pattern variables; found: [(label, ((arm, ast or
+    text), ...), node)] read off f.  Looks for one assignment of the table
+    entries to distinct found entries under one meaning of the variables.
+    Returns (bindings {variable: text} or None, unmatched table entries)."""
+    def norm(arm, e, fn):
+        if arm == 'loop':
+            with no_alpha():
+                text = canon(fn, _parse_expr(e) if isinstance(e, str) else e)
+            return 'loop', ('atom', text)
+        with no_alpha():
+            t = cond_tree(_parse_expr(e) if isinstance(e, str) else e, fn)
+        pol = arm == 'then'
+        while t[0] == 'not':
+            t, pol = t[1], not pol
+        return ('then' if pol else 'else'), t
+    pats = [(lab, [norm(a, e, None) for a, e in g]) for lab, g in table]
+    tgts = [(lab, [norm(a, e, f) for a, e in g]) for lab, g, *_ in found]
+    best = {'n': -1, 'env': None, 'left': list(range(len(pats)))}
+
+    def entry(pg, tg, env):
+        envs = [env]
+        for (pa, pt), (ta, tt) in zip(pg, tg):
+            if pa != ta:
+                return []
+            envs = [e2 for e in envs
+                    for e2 in tree_match(pt, tt, variables, e)]
+            if not envs:
+                return []
+        return envs
+
+    def search(i, used, env, matched):
+        if i == len(pats):
+            if len(matched) > best['n']:
+                best.update(n=len(matched), env=env, left=[
+                    k for k in range(len(pats)) if k not in matched])
+            return len(matched) == len(pats)
+        lab, pg = pats[i]
+        for j, (tl, tg) in enumerate(tgts):
+            if j in used or tl != lab or len(tg) != len(pg):
+                continue
+            for e2 in entry(pg, tg, env):
+                if search(i + 1, used | {j}, e2, matched | {i}):
+                    return True
+        # leave this entry unmatched (to report the others precisely)
+        search(i + 1, used, env, matched)
+        return False
+
+    search(0, frozenset(), {}, frozenset())
+    env = best['env'] or {}
+    return ({k: ' '.join(src(v[1]).split()) for k, v in env.items()},
+            [table[k] for k in best['left']])
+
+
+# ------------------------------------------------- names that carry no meaning
+def alpha_names(f):
+    """{local name: canonical text} for the locals of f that canon() cannot
+    replace by a value (loop variables, unpacked results, names bound more
+    than once, handler / with names): what the name stands for, written
+    without the name, so that renaming a local changes no canonical text.
+        for v in xs            v    -> each(xs)
+        for i, v in enumerate(xs)   -> index(xs), each(xs)
+        for k, v in d.items()       -> key(d), value(d)
+        for a, b in zip(xs, ys)     -> each(xs), each(ys)
+        a, b = f()             a    -> part(0, f())
+        x = None ... x = g()   x    -> anyof(None, g())
+        except E as err        err  -> caught(E)
+        with open(p) as fh     fh   -> entered(open(p))
+    Two locals with the same description get an ordinal (anyof2)."""
+    cached = getattr(f, '_alpha_names', None)
+    if cached is not None:
+        return cached
+    f._alpha_names = {}         # (recursion through canon sees no names)
+    names = []
+    for n in walk_local(f.node, include_root=False):
+        els = []
+        if isinstance(n, ast.Assign):
+            for t in n.targets:
+                els += _flatten_targets(t)
+        elif isinstance(n, (ast.AugAssign, ast.AnnAssign)):
+            els = [n.target]
+        elif isinstance(n, (ast.For, ast.AsyncFor)):
+            els = _flatten_targets(n.target)
+        elif isinstance(n, (ast.With, ast.AsyncWith)):
+            for it in n.items:
+                if it.optional_vars is not None:
+                    els += _flatten_targets(it.optional_vars)
+        elif isinstance(n, ast.NamedExpr):
+            els = [n.target]
+        elif isinstance(n, ast.ExceptHandler) and n.name:
+            if n.name not in names and n.name not in f.params:
+                names.append(n.name)
+        for el in els:
+            if isinstance(el, ast.Starred):
+                el = el.value
+            if isinstance(el, ast.Name) and el.id not in names and \
+                    el.id not in f.params:
+                names.append(el.id)
+    out = {}
+    raw = {}
+    for name in names:
+        if chained_assign_value(f, name) is not None and \
+                not isinstance(chained_assign_value(f, name), ast.Lambda):
+            continue            # canon() writes the value out
+        raw[name] = _describe_local(f, name, (name,))
+    taken = {}
+    for name in names:
+        if name not in raw:
+            continue
+        t = raw[name]
+        k = taken.get(t, 0) + 1
+        taken[t] = k
+        if k > 1:
+            head, _, rest = t.partition('(')
+            t = '%s%d(%s' % (head, k, rest) if rest else '%s%d' % (t, k)
+        out[name] = t
+    f._alpha_names = out
+    return out
+
+
+def _describe_local(f, name, stack):
+    def text(e):
+        # canonical text of a value, other locals described in turn
+        e = substitute_locals(f, e)
+        return ' '.join(src(_rename_locals(f, e, stack)).split())
+
+    def position(target, el):
+        """index path of el inside the (nested) tuple target"""
+        if target is el:
+            return []
+        if isinstance(target, ast.Starred):
+            return position(target.value, el)
+        if isinstance(target, (ast.Tuple, ast.List)):
+            for i, t in enumerate(target.elts):
+                p = position(t, el)
+                if p is not None:
+                    return [i] + p
+        return None
+
+    def find(target):
+        for x in ast.walk(target):
+            if isinstance(x, ast.Name) and x.id == name:
+                return x
+        return None
+    parts = []
+    for n in walk_local(f.node, include_root=False):
+        if isinstance(n, (ast.For, ast.AsyncFor)) and find(n.target):
+            path = position(n.target, find(n.target)) or []
+            it = n.iter
+            d = None
+            if isinstance(it, ast.Call) and isinstance(it.func, ast.Name) \
+                    and it.func.id == 'enumerate' and it.args and \
+                    len(path) >= 1:
+                d = 'index(%s)' % text(it.args[0]) if path[0] == 0 else \
+                    'each(%s)' % text(it.args[0])
+                path = path[1:]
+            elif isinstance(it, ast.Call) and isinstance(it.func, ast.Name) \
+                    and it.func.id == 'zip' and path and \
+                    path[0] < len(it.args):
+                d = 'each(%s)' % text(it.args[path[0]])
+                path = path[1:]
+            elif isinstance(it, ast.Call) and \
+                    isinstance(it.func, ast.Attribute) and \
+                    it.func.attr == 'items' and not it.args and \
+                    len(path) >= 1:
+                d = ('key(%s)' if path[0] == 0 else 'value(%s)') % \
+                    text(it.func.value)
+                path = path[1:]
+            else:
+                d = 'each(%s)' % text(it)
+            for i in path:
+                d = 'part(%d, %s)' % (i, d)
+            parts.append(d)
+        elif isinstance(n, ast.Assign):
+            for t in n.targets:
+                el = find(t)
+                if el is None:
+                    continue
+                pairs = dict((id(a), b) for a, b in _pair_targets(t, n.value))
+                v = pairs.get(id(el))
+                if v is not None:
+                    parts.append(text(v))
+                else:
+                    d = text(n.value)
+                    for i in position(t, el) or []:
+                        d = 'part(%d, %s)' % (i, d)
+                    parts.append(d)
+        elif isinstance(n, ast.AugAssign) and isinstance(n.target, ast.Name) \
+                and n.target.id == name:
+            parts.append('updated(%s, %s)' % (type(n.op).__name__,
+                                              text(n.value)))
+        elif isinstance(n, ast.AnnAssign) and isinstance(n.target, ast.Name) \
+                and n.target.id == name and n.value is not None:
+            parts.append(text(n.value))
+        elif isinstance(n, ast.NamedExpr) and n.target.id == name:
+            parts.append(text(n.value))
+        elif isinstance(n, (ast.With, ast.AsyncWith)):
+            for it in n.items:
+                if it.optional_vars is not None and find(it.optional_vars):
+                    parts.append('entered(%s)' % text(it.context_expr))
+        elif isinstance(n, ast.ExceptHandler) and n.name == name:
+            parts.append('caught(%s)' % (text(n.type) if n.type is not None
+                                         else ''))
+    parts = sorted(set(parts))
+    if not parts:
+        return 'unbound()'
+    if len(parts) == 1:
+        return parts[0] if '(' in parts[0] else 'anyof(%s)' % parts[0]
+    return 'anyof(%s)' % ', '.join(parts)
+
+
+def _rename_locals(f, e, stack=()):
+    """e with the locals of f that survive substitution replaced by their
+    description (those on `stack` - being described - by `rec`), and
+    comprehension variables numbered."""
+    import copy
+    params = set(f.params)
+    own = None
+
+    class T(ast.NodeTransformer):
+        def __init__(self):
+            self.bound = [set()]
+
+        def _comp(self, node):
+            b = set()
+            for g in node.generators:
+                b |= {x.id for x in ast.walk(g.target)
+                      if isinstance(x, ast.Name)}
+            self.bound.append(self.bound[-1] | b)
+            self.generic_visit(node)
+            self.bound.pop()
+            return node
+        visit_ListComp = visit_SetComp = visit_GeneratorExp = _comp
+        visit_DictComp = _comp
+
+        def visit_Lambda(self, node):
+            b = {a.arg for a in ast.walk(node.args) if isinstance(a, ast.arg)}
+            self.bound.append(self.bound[-1] | b)
+            self.generic_visit(node)
+            self.bound.pop()
+            return node
+
+        def visit_Name(self, node):
+            nonlocal own
+            if not isinstance(node.ctx, ast.Load) or node.id in params or \
+                    node.id in self.bound[-1]:
+                return node
+            if node.id in stack:
+                return ast.copy_location(ast.Name(id='rec', ctx=ast.Load()),
+                                         node)
+            if stack:
+                if own is None:
+                    own = {n for n in _local_names(f)}
+                if node.id not in own:
+                    return node
+                if chained_assign_value(f, node.id) is not None:
+                    return node
+                d = _describe_local(f, node.id, stack + (node.id,)) \
+                    if len(stack) < 4 else 'deep()'
+            else:
+                d = alpha_names(f).get(node.id)
+                if d is None:
+                    return node
+            try:
+                return ast.copy_location(_parse_expr(d), node)
+            except SyntaxError:
+                return node
+    return _alpha_comprehensions(T().visit(copy.deepcopy(e)))
+
+
+def _local_names(f):
+    cached = getattr(f, '_local_name_set', None)
+    if cached is None:
+        cached = set()
+        for n in walk_local(f.node, include_root=False):
+            if isinstance(n, ast.Name) and isinstance(n.ctx, (ast.Store,
+                                                              ast.Del)):
+                cached.add(n.id)
+            elif isinstance(n, ast.ExceptHandler) and n.name:
+                cached.add(n.name)
+        cached -= set(f.params)
+        f._local_name_set = cached
+    return cached
+
+
+def _alpha(f, e):
+    return _rename_locals(f, e)
+
+
+def _alpha_comprehensions(e):
+    """Comprehension / lambda variables numbered c1, c2, ... in order of
+    appearance (they are bound inside the expression: any name would do)."""
+    import copy
+    e = copy.deepcopy(e)
+    counter = [0]
+
+    def rename(node, mapping):
+        for x in ast.walk(node):
+            if isinstance(x, ast.Name) and x.id in mapping:
+                x.id = mapping[x.id]
+            elif isinstance(x, ast.arg) and x.arg in mapping:
+                x.arg = mapping[x.arg]
+
+    def visit(node):
+        if isinstance(node, (ast.ListComp, ast.SetComp, ast.GeneratorExp,
+                             ast.DictComp)):
+            mapping = {}
+            for g in node.generators:
+                for x in ast.walk(g.target):
+                    if isinstance(x, ast.Name) and x.id not in mapping:
+                        counter[0] += 1
+                        mapping[x.id] = 'c%d' % counter[0]
+            rename(node, mapping)
+        elif isinstance(node, ast.Lambda):
+            mapping = {}
+            for a in ast.walk(node.args):
+                if isinstance(a, ast.arg):
+                    counter[0] += 1
+                    mapping[a.arg] = 'c%d' % counter[0]
+            rename(node, mapping)
+        for ch in ast.iter_child_nodes(node):
+            visit(ch)
+    visit(e)
+    return e
+
+
 def _parse_expr(text):
     return ast.parse(text, mode='eval').body
+
+
+def ctext(f, text):
+    """Canonical form of a text a rule wrote with names it found in f (the
+    loop variable, the holder of a line): what canon() gives for it."""
+    return canon(f, _parse_expr(text))
 
 
 def cond_tree(e, f=None):
@@ -1004,7 +1470,20 @@ def eval_cond(f, e, env):
     cenv = {}
     for k, val in env.items():
         if isinstance(k, str):
-            cenv[_canon_key(f, k)] = val
+            ck = _canon_key(f, k)
+            cenv[ck] = val
+            # a key written as a negated literal (`a != b`, `x not in y`)
+            # also tells the positive one
+            if ck == k and isinstance(val, bool):
+                try:
+                    t = cond_tree(_parse_expr(k), f)
+                except SyntaxError:
+                    t = ('atom', k)
+                neg = False
+                while t[0] == 'not':
+                    t, neg = t[1], not neg
+                if neg and t[0] == 'atom':
+                    cenv.setdefault(t[1], not val)
     cenv.update({k: v_ for k, v_ in env.items() if k not in cenv})
 
     def ev(t):
@@ -1362,7 +1841,18 @@ def literal_text(f, atom, polarity):
     if t[0] in ('or', 'and') and all(k[0] == 'atom' for k in t[1]):
         # membership in a literal tuple: `x in ('a', 'b')`
         return (' %s ' % t[0]).join(sorted(k[1] for k in t[1])), polarity
-    return canon(f, atom), polarity
+    # (t already has the leading negations stripped: print that tree)
+    return _tree_text(t), polarity
+
+
+def _tree_text(t):
+    if t[0] == 'atom':
+        return t[1]
+    if t[0] == 'const':
+        return str(t[1])
+    if t[0] == 'not':
+        return 'not (%s)' % _tree_text(t[1])
+    return '(%s)' % (' %s ' % t[0]).join(sorted(_tree_text(k) for k in t[1]))
 
 
 # ------------------------------------------------------- "exists" predicates
